@@ -278,8 +278,83 @@ def run_termlist(spec):
     return {'nontrivial': first_plus or len(before) >= 3, 'labels': labels}
 
 
+# ---------------------------------------------------------------------------------------------
+@st.composite
+def termobj_case(draw):
+    """AddTerm documents 'may be a string or Term object': histories in which Term objects are reused."""
+    pool = draw(st.lists(signed_term(), min_size=1, max_size=4))
+    ops = []
+    for _ in range(draw(st.integers(2, 10))):
+        eqi = draw(st.sampled_from([0, 0, 1]))
+        if draw(st.sampled_from([True, True, False])):
+            ops.append([eqi, 'obj', draw(st.integers(0, len(pool) - 1))])
+        else:
+            ops.append([eqi, 'str', draw(signed_term(None))])
+    ctor_objs = draw(st.lists(st.integers(0, len(pool) - 1), min_size=0, max_size=2))
+    vals = [{n: '%d/%d' % (draw(st.integers(1, 40)) * draw(st.sampled_from([1, -1])), draw(st.integers(1, 9)))
+             for n in NAMES} for _ in range(2)]
+    return {'pool': pool, 'ops': ops, 'ctor_objs': ctor_objs, 'vals': vals}
+
+
+def run_termobj(spec):
+    from sfc_models.equation import Equation, Term
+    from sfc_models.utils import LogicError
+    envs = _envs(spec)
+    objs = []
+    texts = []
+    for t in spec['pool']:
+        try:
+            objs.append(Term(t))
+            texts.append(t)
+        except (LogicError, SyntaxError, NotImplementedError):
+            objs.append(None)
+            texts.append(None)
+    if all(o is None for o in objs):
+        raise Reject('no valid term object')
+    snapshot = [(o.Constant, o.Term) if o is not None else None for o in objs]
+    accepted = [[], []]
+    first = [objs[i] for i in spec['ctor_objs'] if objs[i] is not None]
+    eqs = [Equation('v0', '', list(first)), Equation('v1', '', [])]
+    accepted[0] += [texts[i] for i in spec['ctor_objs'] if objs[i] is not None]
+    reused = False
+    used = set(i for i in spec['ctor_objs'] if objs[i] is not None)
+    for i, (eqi, kind, arg) in enumerate(spec['ops']):
+        if kind == 'obj':
+            if objs[arg] is None:
+                continue
+            if arg in used:
+                reused = True
+            used.add(arg)
+            eqs[eqi].AddTerm(objs[arg])
+            accepted[eqi].append(texts[arg])
+        else:
+            try:
+                eqs[eqi].AddTerm(arg)
+                accepted[eqi].append(arg)
+            except (LogicError, SyntaxError, NotImplementedError):
+                continue
+        # invariant after every step, for both equations
+        for j in (0, 1):
+            rhs = eqs[j].RHS()
+            for env in envs:
+                try:
+                    want = sum((_term_value(t, env) for t in accepted[j]), Fraction(0))
+                    got = expr.frac_eval(rhs, env)
+                except ZeroDivisionError:
+                    raise Reject('valuation divides by zero')
+                except Exception as ex:
+                    raise Violation('C12/not-an-expression', 'rendered %r: %s' % (rhs, ex))
+                if got != want:
+                    raise Violation('C12/term-object-reuse', 'after ops %r with Term objects %r: equation %d renders %r '
+                                    '(value %s), the terms added to it are %r (value %s)' %
+                                    (spec['ops'][:i + 1], spec['pool'], j, rhs, got, accepted[j], want))
+    # (Whether the caller's Term objects themselves stay untouched is not part of the property; only values are judged.)
+    return {'nontrivial': reused, 'labels': ['object-reused'] if reused else []}
+
+
 FAMILIES = [
     Family('addterm', addterm_case, run_addterm, quick=4000, thorough=200000),
+    Family('term-objects', termobj_case, run_termobj, quick=2500, thorough=100000),
     Family('termlist', termlist_case, run_termlist, quick=3000, thorough=100000),
 ]
 
